@@ -23,3 +23,42 @@ Theorem dial_lockset_sound : forall p, lockset_ok p = true ->
   forall v, In v (written_vars p) -> ~ race_on p s v.
 Proof. exact lockset_sound_lemma. Qed.
 Print Assumptions dial_lockset_sound.
+
+From Coq Require Import Arith Permutation.
+From V Require Import Model.Dial Proofs.DialProofs.
+
+(* each dial attempts at most two addresses, all of them resolved ones, at most one per IP
+   family and one for every family present in the resolved set *)
+Theorem dial_targets_resolved : forall ips,
+  incl (first_of_each ips) ips /\ (length (first_of_each ips) <= 2)%nat /\
+  NoDup (map snd (first_of_each ips)) /\
+  forall fam, (exists a, In a ips /\ snd a = fam) -> exists b, In b (first_of_each ips) /\ snd b = fam.
+Proof.
+  intros ips. split; [apply first_of_each_incl|]. split; [apply first_of_each_len|].
+  apply first_of_each_families.
+Qed.
+Print Assumptions dial_targets_resolved.
+
+(* dialling never alters the cached address set (the dial works on a copy) ... *)
+Theorem cache_preserved : forall cache shuffled, snd (dial_fixed cache shuffled) = cache.
+Proof. exact dial_fixed_preserves. Qed.
+(* ... so every resolved address keeps being possible: some shuffle dials it *)
+Theorem every_address_possible : forall cache a, In a cache ->
+  exists shuffled, Permutation cache shuffled /\ In a (first_of_each shuffled).
+Proof. exact every_address_possible_lemma. Qed.
+Print Assumptions every_address_possible.
+(* the pinned dial shuffled and compacted the cache's own array: refuted *)
+Theorem cache_collapse_refuted : exists shuffled, ~ Permutation (snd (dial_pinned shuffled)) shuffled.
+Proof. exact cache_collapse_refuted_lemma. Qed.
+
+(* rotation by an atomic counter (ConnectTo replacements, custom resolver addresses): in any
+   window of n = q*k + r consecutive dials each of the k addresses is used q or q+1 times *)
+Theorem connect_to_rotation : forall k, (0 < k)%nat -> forall q r a j, (r < k)%nat -> (j < k)%nat ->
+  (q <= count_occ Nat.eq_dec (rot_draws k a (q * k + r)) j <= q + 1)%nat.
+Proof. exact rotation_even_lemma. Qed.
+Print Assumptions connect_to_rotation.
+
+Example c18_example :
+  first_of_each [(1, true); (2, true); (3, false); (4, false)]%Z = [(1, true); (3, false)]%Z /\
+  rot_draws 3 1 7 = [1; 2; 0; 1; 2; 0; 1]%nat.
+Proof. split; reflexivity. Qed.
